@@ -637,3 +637,7 @@ mod tests {
         assert_eq!(vec![0, 2, 3, 5, 6, 8], ranges);
     }
 }
+
+#[cfg(kani)]
+#[path = "/verif/kani/reader.rs"]
+mod verif_kani;
